@@ -30,6 +30,9 @@ CHECKS["C07"] = ("exhaustive decision-table testing: generated class fixtures fo
 CHECKS["C08"] = ("exhaustive enumeration of small class/interface hierarchies (+ seeded larger ones) judged against an independent reachability and nearest-definition computation",
          "All hierarchies with <= 3 classes and <= 2 interfaces (forests x interface-extends DAGs x implements subsets x method placements), seeded hierarchies to 5+4; per hierarchy every (object class, type) pair through instanceof, typed parameter and catch, every call form ($o->m(), parent::, self::, static::), and a structural-typing (like) enumeration over class chains.",
          "Root classes extend Exception so one hierarchy serves all judges; like is asserted for targets that declare their methods directly.")
+CHECKS["C09"] = ("controlled-schedule enumeration (DFS with replay) and rapid-drawn schedules over real goroutines parked at verif-tag hook points, history invariants at quiescence; plus -race stress of spawn scripts",
+         "A controlled scheduler owns every decision point of Send/Close/Receive (hook points between the closed test and the chan operation); all interleavings of the small configurations are enumerated, larger ones drawn by rapid and shrunk; invariants: exactly-once, per-sender order, no phantom values, send after close fails, no panic, nobody stuck. A second engine runs spawn-based producer/consumer scripts through the interpreter built with -race at GOMAXPROCS 1..16.",
+         "Needs the verif build tag (hook in std/channel); blocking inside a real chan operation is recognised by a step timeout that only shapes the visited schedules.")
 NOT_YET = {
 }
 
